@@ -189,7 +189,10 @@ def gen_case(run_seed: int, index: int, tier: str) -> dict:
         else:
             members = [rng.randrange(npool) for _ in range(rng.choice([1, 2, 2, 3, 4, 6, 9, 17]))]
         calls.append({"members": members, "layout": lay, "fresh": rng.random() < 0.12, "noncontig": rng.random() < 0.15,
-                      "via": rng.choice([None, None, None, None, "deepcopy", "eval", "train_then_eval"])})
+                      "via": rng.choice([None, None, None, None, "deepcopy", "eval", "train_then_eval"]),
+                      # the optional second output is requested call by call; bit inputs arrive in several dtypes
+                      "second": bool(comp.get("second_output")) and rng.random() < 0.5,
+                      "dtype": rng.choice([None, None, None, "float64", "int32", "int64"]) if kind in ("encoder", "decoder_hard", "modulator") else None})
     if rng.random() < 0.5 and calls:
         calls.append(copy.deepcopy(rng.choice(calls)))  # the same call repeated
     case["calls"] = calls
@@ -221,27 +224,27 @@ def _component_obj(comp, fresh=False, obj=None):
     kind = comp["kind"]
     if kind == "encoder":
         enc = obj if obj is not None else C.build_encoder(comp["code"])
-        return (lambda x: enc(x)), C.ENCODER_CLASS[comp["code"]["family"]], enc
+        return (lambda x, second=False: enc(x)), C.ENCODER_CLASS[comp["code"]["family"]], enc
     if kind in ("decoder_hard", "decoder_soft"):
         dec = obj if obj is not None else C.build_decoder(comp["code"], comp["decoder"], comp.get("dec_opts"), fresh=fresh and comp["decoder"] not in ("syndrome", "ml"))
         if comp.get("second_output"):
             kw = {comp["second_output"]: True}
-            return (lambda x: dec(x, **kw)), C.DECODER_CLASS[comp["decoder"]] + f"[{comp['second_output']}]", dec
-        return (lambda x: dec(x)), C.DECODER_CLASS[comp["decoder"]], dec
+            return (lambda x, second=False: dec(x, **kw) if second else dec(x)), C.DECODER_CLASS[comp["decoder"]] + f"[{comp['second_output']}]", dec
+        return (lambda x, second=False: dec(x)), C.DECODER_CLASS[comp["decoder"]], dec
     if kind == "modulator":
         m = obj if obj is not None else _modem(comp, fresh)[0]
-        return (lambda x: m(x)), type(m).__name__, m
+        return (lambda x, second=False: m(x)), type(m).__name__, m
     if kind == "demodulator":
         d = obj if obj is not None else _modem(comp, fresh)[1]
         if comp["soft"]:
             nv = comp["noise_var"]
-            return (lambda y: d(y, nv)), type(d).__name__ + "[soft]", d
-        return (lambda y: d(y)), type(d).__name__ + "[hard]", d
+            return (lambda y, second=False: d(y, nv)), type(d).__name__ + "[soft]", d
+        return (lambda y, second=False: d(y)), type(d).__name__ + "[hard]", d
     import kaira.constraints as K
 
     c = comp["constraint"]
     if obj is not None:
-        return (lambda x: obj(x)), type(obj).__name__, obj
+        return (lambda x, second=False: obj(x)), type(obj).__name__, obj
     if c == "total":
         obj = K.TotalPowerConstraint(comp["value"])
     elif c == "average":
@@ -253,7 +256,7 @@ def _component_obj(comp, fresh=False, obj=None):
             obj = K.PerAntennaPowerConstraint(power_budget=torch.tensor([comp["value"] * (i + 1) for i in range(comp["antennas"])]))
         else:
             obj = K.PerAntennaPowerConstraint(uniform_power=comp["value"])
-    return (lambda x: obj(x)), type(obj).__name__, obj
+    return (lambda x, second=False: obj(x)), type(obj).__name__, obj
 
 
 _MODEMS = {}
@@ -376,6 +379,7 @@ def execute(case: dict) -> RunResult:
         want_len = comp["nsym"] * comp["bps"]
     tensors = [_sample_tensor(comp, s) for s in case["samples"]]
     answers = {i: [] for i in range(len(tensors))}  # sample -> [(context, tensor)]
+    answers2 = {i: [] for i in range(len(tensors))}  # the optional second outputs, compared among themselves
 
     def violate(vkind, msg, **extra):
         sig = {"component": cname, "kind": vkind}
@@ -393,6 +397,9 @@ def execute(case: dict) -> RunResult:
         if call.get("noncontig") and x.dim() >= 2:
             x = x.transpose(0, -1).contiguous().transpose(0, -1)  # same values, non-contiguous memory
             res.probes["input.noncontiguous"] += 1
+        if call.get("dtype"):
+            x = x.to({"float64": torch.float64, "int32": torch.int32, "int64": torch.int64}[call["dtype"]])
+            res.probes[f"input.dtype_{call['dtype']}"] += 1
         x0 = x.clone()
         f = fn
         if call["fresh"]:
@@ -409,7 +416,7 @@ def execute(case: dict) -> RunResult:
                 f = fn
         try:
             with torch.no_grad(), contextlib.redirect_stdout(io.StringIO()):
-                out = f(x)
+                out = f(x, second=bool(call.get("second")))
         except Exception as e:
             log.add("call", {"i": ci, "layout": lay, "members": members, "raised": type(e).__name__})
             res.probes[f"rejected.{lay_kind}"] += 1
@@ -420,6 +427,9 @@ def execute(case: dict) -> RunResult:
         res.faults[f"delivery.{lay_kind}"] += 1
         if not torch.equal(x, x0):
             violate("input_modified", f"call {ci} ({lay}, members {members}) modified its input tensor", layout=lay_kind)
+        if isinstance(out, tuple) != bool(call.get("second")):
+            violate("second_output_form", f"call {ci} ({lay}, members {members}) {'did not request' if not call.get('second') else 'requested'} the optional second output but the component returned {'a tuple' if isinstance(out, tuple) else type(out).__name__}", layout=lay_kind)
+            continue
         parts = _split(comp, out, lay, len(members))
         if parts is None:
             violate("output_layout", f"call {ci} ({lay}, members {members}, input shape {list(x.shape)}) returned shape {list(getattr(out, 'shape', []))}, which cannot hold one answer per member", layout=lay_kind)
@@ -430,7 +440,12 @@ def execute(case: dict) -> RunResult:
             violate("output_dim", f"call {ci} ({lay}, members {members}, input shape {list(x.shape)}) returned shape {oshape}: {firsts[0].shape[-1] if firsts[0].dim() else 0} values per sample instead of {want_len}", layout=lay_kind)
             continue
         for pos, (m, part) in enumerate(zip(members, parts)):
-            answers[m].append(({"call": ci, "layout": lay_kind, "pos": pos, "batch": len(members), "fresh": call["fresh"]}, part))
+            ctxd = {"call": ci, "layout": lay_kind, "pos": pos, "batch": len(members), "fresh": call["fresh"], "dtype": call.get("dtype")}
+            if isinstance(part, tuple):  # (decoded, second output): the first part joins the common answer set
+                answers[m].append((ctxd, part[0]))
+                answers2[m].append((ctxd, part[1]))
+            else:
+                answers[m].append((ctxd, part))
     nontrivial = False
     for m, lst in answers.items():
         if len(lst) >= 2:
@@ -445,11 +460,19 @@ def execute(case: dict) -> RunResult:
                         diff = "shapes differ" if a.shape != ref.shape else f"{int((a != ref).sum())} of {a.numel()} values differ"
                     violate("answers_differ", f"sample {m} answered differently in two evaluations: {ref_ctx} vs {ctx}: {diff}; sample = {case['samples'][m] if len(case['samples'][m]) <= 40 else str(case['samples'][m][:40]) + '...'}", layouts=pair)
                     break
+    for m, lst in answers2.items():
+        if len(lst) >= 2:
+            ref_ctx, ref = lst[0]
+            for ctx, a in lst[1:]:
+                exact2 = not a.is_floating_point() or bool((a == a.round()).all() and (ref == ref.round()).all())
+                if not _same(ref, a, exact2):
+                    violate("second_outputs_differ", f"sample {m}: the optional second output differs between two evaluations: {ref_ctx} vs {ctx}", layouts="|".join(sorted({ref_ctx["layout"], ctx["layout"]})))
+                    break
     if nontrivial:
         res.nontrivial.append(core.short_hash(case))
     res.probes[f"kind.{kind}"] += 1
     if comp.get("second_output"):
-        res.probes[f"second_output.{comp['second_output']}.answers"] += sum(len(v) for v in answers.values())
+        res.probes[f"second_output.{comp['second_output']}.answers"] += sum(len(v) for v in answers2.values())
     res.digest, res.n_events = log.digest(), len(log)
     return res
 
